@@ -201,6 +201,12 @@ class _Raw:
         self.kind, self.value = kind, value
 
 
+def emitted_href(status):
+    """The href text the server would put on the wire for this response (Status.aselement(), as
+    _send_dav_responses serialises it)."""
+    return status.aselement().find("{DAV:}href").text
+
+
 def propfind_body(*names):
     el = Wd.ET.Element("{DAV:}propfind")
     prop = Wd.ET.SubElement(el, "{DAV:}prop")
